@@ -484,3 +484,64 @@ def r6(cx):
                     cx.violation(p, "column-stats-writer", "%s: %s changes a catalog entry's column statistics (%s) outside registration: statistics that were not computed from the chunk's own rows "
                                  "make pruning unsound for it" % (b.sp(bi, si), p.rsplit("::", 1)[1], site), [b.sp(bi, si)])
     cx.floor("constructions / writes of column_stats", n, 1)
+
+
+SCAL = "query::engine::QueryEngine::convert_scalar_to_predicate_value"
+REVIEWED_EXPR_ARMS = {"BinaryExpr", "Between", "InList", "Not"}
+LOSSLESS = {("Int8", "Int64"), ("Int16", "Int64"), ("Int32", "Int64"), ("Int64", "Int64"), ("UInt8", "Int64"), ("UInt16", "Int64"), ("UInt32", "Int64"),
+            ("Float32", "Float64"), ("Float64", "Float64"), ("Utf8", "String"), ("LargeUtf8", "String"), ("Utf8View", "String"), ("Boolean", "Boolean"), ("Null", "Null")}
+
+
+@rule("C12", "R7", "only reviewed SQL forms are pushed down, and literals are carried over losslessly: convert_expr_to_predicate converts exactly the expression kinds whose conversion "
+      "was checked (BinaryExpr, Between, InList, Not - R4), any other kind yields no predicate until it is reviewed; convert_scalar_to_predicate_value maps each literal type to a "
+      "predicate value that represents it exactly (no UInt64 -> i64 wrap, no float -> integer truncation)")
+def r7(cx):
+    h = cx.hir(CONV)
+    top = H.tail(h["tree"]) if h["tree"].get("k") == "block" else h["tree"]
+    if top is None or top.get("k") != "match":
+        cx.violation(CONV, "conversion-arms", "%s: convert_expr_to_predicate is no longer a match on the expression kind (fail closed)" % h["span"], [h["span"]])
+    else:
+        n = 0
+        for arm in top["arms"]:
+            for alt in H.pat_alts(arm["pat"]):
+                ch = [x.rsplit("::", 1)[-1] for x in H.pat_variant_chain(alt)]
+                if not ch:
+                    # catch-all: must yield None
+                    t = H.tail(arm["body"]) if arm["body"].get("k") == "block" else arm["body"]
+                    if not (H.path_of(H.strip(t)) or "").endswith("None"):
+                        cx.violation(CONV, "conversion-arms:_", "%s: the catch-all arm of the conversion does not yield None" % arm["sp"], [arm["sp"]])
+                    continue
+                n += 1
+                if ch[0] in REVIEWED_EXPR_ARMS:
+                    cx.passed(CONV, "conversion-arms:%s" % ch[0], [arm["sp"]])
+                else:
+                    cx.violation(CONV, "conversion-arms:%s" % ch[0], "%s: expressions of kind %s are now converted into a statistics predicate; that conversion has not been checked for soundness "
+                                 "(e.g. LIKE 'a_b%%' is not the range ['a_b', 'a_c'): `_` matches any character)" % (arm["sp"], ch[0]), [arm["sp"]])
+        cx.floor("converted expression kinds", n, 4, CONV)
+    hs = cx.hir(SCAL)
+    if hs is None:
+        cx.violation(SCAL, "anchor-missing", "HIR not found", [])
+        return
+    n = 0
+    for m in H.walk(hs["tree"]):
+        if m.get("k") != "match" or "ScalarValue" not in (m.get("sty") or ""):
+            continue
+        for arm in m["arms"]:
+            t = H.tail(arm["body"]) if arm["body"].get("k") == "block" else arm["body"]
+            p, args = H.ctor_call(t)
+            dst = None
+            if p and p.endswith("Some") and args:
+                ip, _ = H.ctor_call(args[0])
+                dst = (ip or H.path_of(H.strip(args[0])) or "?").rsplit("::", 1)[-1]
+            for alt in H.pat_alts(arm["pat"]):
+                ch = [x.rsplit("::", 1)[-1] for x in H.pat_variant_chain(alt)]
+                if not ch or dst is None:
+                    continue
+                src = ch[0]
+                n += 1
+                if (src, dst) in LOSSLESS:
+                    cx.passed(SCAL, "literal:%s" % src, [arm["sp"]], "%s -> %s" % (src, dst))
+                else:
+                    cx.violation(SCAL, "literal:%s" % src, "%s: a %s literal is pushed down as PredicateValue::%s, which cannot represent every value of that type: a literal outside the "
+                                 "target's range wraps or truncates (e.g. 18446744073709551615 becomes -1) and chunks whose rows all match are pruned" % (arm["sp"], src, dst), [arm["sp"]])
+    cx.floor("literal types with a conversion", n, 8, SCAL)
